@@ -187,25 +187,31 @@ Definition fbr_chunks (cs : list bytes) : option (list bytes) :=
    bufio.Reader br, or br over ctx.fbr (ReduceMemoryUsage: firstByteReader{c, ch, byteRead}).
    Inside the hijack handler every source yields hbuf followed by the later reads.
    After the handler returned, hijackConnHandler releases the reader and closes the conn unless
-   KeepHijackedConns, and in every case calls s.releaseCtx(ctx) -> ctx.reset() -> ctx.fbr.reset()
-   (c = nil, byteRead = false).  With KeepHijackedConns the connection lives on; a reader that goes
-   through ctx.fbr then still delivers what br has buffered and after that runs into the reset
-   firstByteReader: a zero byte is injected and the nil conn is dereferenced (panic) — or, once the
-   pooled ctx serves another connection, that connection's bytes are read. *)
+   KeepHijackedConns.  It then calls s.releaseCtx(ctx) -> ctx.reset() -> ctx.fbr.reset() — except when the
+   connection is kept, the reader is a *bufio.Reader and ctx.fbr.c != nil (ReduceMemoryUsage: the ctx in use at
+   that point came out of acquireByteReader): then the ctx is neither reset nor pooled, because the escaped
+   reader may still read through ctx.fbr.  A reader through a RESET firstByteReader would deliver what br has
+   buffered and then dereference the nil conn (panic). *)
 Inductive late_read :=
 | LateAll (bs : bytes)          (* the rest of the stream, then what the client does next *)
 | LatePanic (bs : bytes)        (* these bytes, then a nil-pointer panic in firstByteReader.Read *)
 | LateClosed                    (* the connection was closed by hijackConnHandler *)
-| LateUnmodelled.               (* HjBrFbr and the handler read beyond br's buffer: depends on the fill sizes *)
+| LateUnmodelled.               (* a reset firstByteReader and the handler read beyond br's buffer *)
 
 (* bytes read inside the handler when it reads k bytes (k <= what is there) *)
 Definition hijack_in (hb : bytes) (hcs : list bytes) (k : nat) : bytes := firstn k (hb ++ concat hcs).
 
+(* does hijackConnHandler reset the ctx?  rm = ReduceMemoryUsage, keep = KeepHijackedConns *)
+Definition ctx_released (rm keep : bool) (src : hj_src) : bool :=
+  negb (keep && (match src with HjConn => false | _ => true end) && rm).
+
 (* reads after the handler returned, having read k bytes inside *)
-Definition hijack_late (keep : bool) (src : hj_src) (hb : bytes) (hcs : list bytes) (k : nat) : late_read :=
+Definition hijack_late (rm keep : bool) (src : hj_src) (hb : bytes) (hcs : list bytes) (k : nat) : late_read :=
   if negb keep then LateClosed
   else match src with
-       | HjBrFbr => if k <=? length hb then LatePanic (skipn k hb) else LateUnmodelled
+       | HjBrFbr => if ctx_released rm keep src
+                    then (if k <=? length hb then LatePanic (skipn k hb) else LateUnmodelled)
+                    else LateAll (skipn k (hb ++ concat hcs))
        | _ => LateAll (skipn k (hb ++ concat hcs))
        end.
 
@@ -275,9 +281,16 @@ Definition req_hstate (num : N) (q : req_sum) (cont : bool) (st0 : Z) : hstate :
 (* s.MaxRequestsPerConn > 0 && connRequestNum >= uint64(s.MaxRequestsPerConn) *)
 Definition max_reached (num : N) : bool := ((0 <? max_reqs cfg) && (max_reqs cfg <=? num))%N.
 
-(* connectionClose after both assignments; cc0 = set by a rejected expectation *)
+(* `reqStream != nil && hijackHandler == nil && timeoutResponse != nil`: the handler timed out while it still owns
+   the streamed request body (StreamRequestBody; every request with Content-Length or chunked framing gets a
+   *requestStream).  The other stream cases (body detached unread, rest of the body cannot be discarded) are
+   outside the model: a streamed body is taken to be read to its end. *)
+Definition stream_timeout_close (q : req_sum) (h : hstate) : bool :=
+  stream_body cfg && negb (Z.eqb (q_cl q) (-2)) && h_timeout h.
+
+(* connectionClose after all assignments; cc0 = set by a rejected expectation *)
 Definition close_decision (num : N) (q : req_sum) (cc0 : bool) (h : hstate) : bool :=
-  cc0 || disable_keepalive cfg || q_close q || max_reached num || rh_close (h_rh h)
+  cc0 || disable_keepalive cfg || q_close q || stream_timeout_close q h || max_reached num || rh_close (h_rh h)
   || (close_on_shutdown cfg && stop_at_close E num).
 
 (* the response header's Connection state when it is written *)
